@@ -51,6 +51,7 @@ func (x *Exec) verifyUnit(fn *ssa.Function) {
 	x.unitC = x.contracts[fnName(fn)]
 	x.pathN = 0
 	x.returned = 0
+	x.initialHeaps = map[string]string{}
 	x.totalSteps = 0
 	x.stepBudget = 400000
 	x.budgetHit = false
@@ -63,6 +64,14 @@ func (x *Exec) verifyUnit(fn *ssa.Function) {
 	for i, p := range fn.Params {
 		v := x.symVal(st, p.Name(), p.Type())
 		_ = i
+		if x.unitC != nil && x.unitC.Outbuf[p.Name()] {
+			// an out-buffer: the callee owns a window onto caller memory
+			if tv, ok := v.(TV); ok {
+				c := st.newCell(p.Name()+"_buf", p.Type(), tv)
+				st.ghost[fmt.Sprintf("len:%d", c.id)] = TV{SInt, sLen(tv.S, tv.E)}
+				v = SliceV{Cell: c, Lo: "0", Hi: sLen(tv.S, tv.E)}
+			}
+		}
 		// pointer and interface parameters are non-nil unless the contract says `nullable <name>`
 		// (checked at every call that goes through a contract)
 		if x.unitC == nil || !x.unitC.Nullable[p.Name()] {
@@ -164,7 +173,7 @@ func (x *Exec) applyModePredicates(st *State, fr *Frame, e ast.Expr) {
 
 func (x *Exec) unitReturn(st *State, fr *Frame, res []Val, in *ssa.Return) {
 	x.returned++
-	if x.returned <= 12 {
+	if x.returned <= 60 {
 		x.smoke(st, fr, "return")
 	}
 	c := x.unitC
@@ -181,9 +190,6 @@ func (x *Exec) unitReturn(st *State, fr *Frame, res []Val, in *ssa.Return) {
 
 // frameCheck: everything outside the modifies clauses is unchanged.
 func (x *Exec) frameCheck(st *State, fr *Frame, c *Contract, in *ssa.Return) {
-	if len(c.Modifies) == 0 && !c.Pure {
-		return
-	}
 	// allowed references per heap sort
 	allowed := map[string][]string{}
 	allHeap := map[string]bool{}
@@ -199,6 +205,49 @@ func (x *Exec) frameCheck(st *State, fr *Frame, c *Contract, in *ssa.Return) {
 			})
 		}
 	}
+	allowedCells := map[*Cell]bool{}
+	allowedGhost := map[string]bool{}
+	for _, m := range c.Modifies {
+		for _, ex := range m.Exprs {
+			x.modTarget(fr.entry, fr, ex, func(kind, sort, ref string, cell *Cell) {
+				if kind == "cell" {
+					allowedCells[cell] = true
+				}
+				if strings.HasPrefix(kind, "ghost:") {
+					allowedGhost[strings.TrimPrefix(kind, "ghost:")] = true
+				}
+			})
+		}
+	}
+	checkCell := func(name string, v Val) {
+		pv, ok := v.(PtrV)
+		if !ok || pv.Cell == nil || allowedCells[pv.Cell] {
+			return
+		}
+		old, ok1 := fr.entry.cells[pv.Cell].(TV)
+		cur, ok2 := st.cells[pv.Cell].(TV)
+		if ok1 && ok2 && old.E != cur.E {
+			x.oblige(st, fr, "frame.cell."+name, "frame", "frame", tEq(old.E, cur.E), in, nil)
+		}
+	}
+	for _, p := range fr.fn.Params {
+		checkCell(p.Name(), fr.vals[p])
+	}
+	for _, p := range fr.fn.FreeVars {
+		checkCell(p.Name(), fr.vals[p])
+	}
+	for k, cur := range st.ghost {
+		if !(strings.HasPrefix(k, "rem:") || strings.HasPrefix(k, "out:")) || allowedGhost[k] {
+			continue
+		}
+		old, ok := fr.entry.ghost[k]
+		if !ok {
+			continue
+		}
+		if old.(TV).E != cur.(TV).E {
+			x.oblige(st, fr, "frame.ghost."+sanitizeIdent(k), "frame", "frame", tEq(old.(TV).E, cur.(TV).E), in, nil)
+		}
+	}
 	for h, cur := range st.heaps {
 		sort := strings.TrimPrefix(h, "H_")
 		if allHeap[sort] {
@@ -206,8 +255,11 @@ func (x *Exec) frameCheck(st *State, fr *Frame, c *Contract, in *ssa.Return) {
 		}
 		old, ok := fr.entry.heaps[h]
 		if !ok {
-			// heap first touched after entry: its initial version is the entry value
-			continue
+			// heap first touched after entry: its initial constant is the entry value
+			old = x.initialHeaps[h]
+			if old == "" {
+				continue
+			}
 		}
 		if old == cur {
 			continue
@@ -358,11 +410,12 @@ func (x *Exec) callByContract(st *State, fr *Frame, callee *ssa.Function, c *Con
 					nv := st.fresh("mod", sort)
 					st.heapStore(sort, ref, nv)
 				case kind == "heap":
-					delete(st.heaps, x.w.Heap(sort))
-					st.heap(sort)
+					st.havocHeap(sort)
 				case kind == "cell":
 					if !st.frozen[cell] {
+						_, x.keepLen = st.ghost[fmt.Sprintf("len:%d", cell.id)]
 						st.cells[cell] = x.havocLike(st, cell.name, cell.typ, st.cells[cell])
+						x.keepLen = false
 					}
 				case strings.HasPrefix(kind, "ghost:"):
 					key := strings.TrimPrefix(kind, "ghost:")
